@@ -1435,23 +1435,30 @@ pub fn run(args: &Args) {
 		return;
 	}
 	let mut rng = Rng::new(args.seed);
+	let t0 = std::time::Instant::now();
+	let mut phases: Vec<(String, f64)> = vec![];
 	strace_tie(args, &mut out, args.n(400, 3000), 4);
+	phases.push(("strace".into(), t0.elapsed().as_secs_f64()));
 	kernel_model_cases(args, &mut out, &mut rng);
+	phases.push(("kernel-model".into(), t0.elapsed().as_secs_f64()));
 	let env = stress_env(args, &mut out, &["file", "versatiles", "pmtiles", "tar", "pmtiles-leaves", "pmtiles-indep2", "pmtiles-indep3", "versatiles-blocks", "versatiles-damaged"]);
-	let file_calls = args.n(480_000, 6_000_000); // per configuration, split over the threads
+	phases.push(("setup".into(), t0.elapsed().as_secs_f64()));
+	let file_calls = args.n(300_000, 6_000_000); // per configuration, split over the threads
 	for (exec, threads) in [("threads", 2usize), ("threads", 4), ("threads", 8), ("threads", 16), ("tokio", 16), ("tokio", 64)] {
 		for mode in ["overlap", "disjoint"] {
 			let cfg = StressCfg { target: "file".into(), exec: exec.into(), threads, calls: file_calls / threads, mode: mode.into(), seed: rng.next() % 1_000_000 };
 			run_stress(&mut out, &env, &cfg);
 		}
 	}
-	let tile_calls = args.n(96_000, 960_000);
+	phases.push(("file-stress".into(), t0.elapsed().as_secs_f64()));
+	let tile_calls = args.n(64_000, 960_000);
 	for target in ["versatiles", "pmtiles", "tar"] {
 		for (exec, threads) in [("threads", 2usize), ("threads", 16), ("tokio", 16), ("tokio", 48)] {
 			let cfg = StressCfg { target: target.into(), exec: exec.into(), threads, calls: tile_calls / threads, mode: "overlap".into(), seed: rng.next() % 1_000_000 };
 			run_stress(&mut out, &env, &cfg);
 		}
 	}
+	phases.push(("container-stress".into(), t0.elapsed().as_secs_f64()));
 	// leaf directories under contention: callers bound to different leaves (plus random / absent probes)
 	for target in ["pmtiles-leaves", "pmtiles-indep2", "pmtiles-indep3"] {
 		for (exec, threads) in [("threads", 2usize), ("threads", 8), ("tokio", 8), ("tokio", 32)] {
@@ -1459,14 +1466,18 @@ pub fn run(args: &Args) {
 			run_stress(&mut out, &env, &cfg);
 		}
 	}
+	phases.push(("leaf-stress".into(), t0.elapsed().as_secs_f64()));
 	// fresh readers per round: concurrent bbox streams over several blocks mixed with lookups; lookups on a
 	// container with a damaged tile index (every verdict = the verdict of a fresh reader)
 	for target in ["versatiles-blocks", "versatiles-damaged"] {
-		for (exec, threads) in [("threads", 4usize), ("threads", 12), ("tokio", 8), ("tokio", 24)] {
-			let cfg = StressCfg { target: target.into(), exec: exec.into(), threads, calls: args.n(150, 2400), mode: "rounds".into(), seed: rng.next() % 1_000_000 };
+		let cfgs: &[(&str, usize)] = if target == "versatiles-blocks" || args.thorough() { &[("threads", 4), ("threads", 12), ("tokio", 8), ("tokio", 24)] } else { &[("threads", 4), ("tokio", 8)] };
+		for &(exec, threads) in cfgs {
+			let cfg = StressCfg { target: target.into(), exec: exec.into(), threads, calls: args.n(100, 2400), mode: "rounds".into(), seed: rng.next() % 1_000_000 };
 			run_stress(&mut out, &env, &cfg);
 		}
 	}
+	phases.push(("rounds".into(), t0.elapsed().as_secs_f64()));
+	out.extra.insert("phase_seconds_cumulative".into(), json!(phases));
 	out.notes.push("level: proof about the model (every interleaving of syscall programs); the Linux kernel, libc, the OS scheduler and tokio are assumptions – a theorem cannot exhibit a race in the real OS, the stress runs only sample real schedules".into());
 	out.finish();
 }
